@@ -83,20 +83,24 @@ def widthAwareSliceStr (u : UEnv) (s : Text) (start end_ : Int) : Except PyErr T
 
 /-! ### FmtStr.width_aware_slice -/
 
+/-- Body of the `if index.start < counter + chunk.width and index.stop > counter:` statement of
+    `FmtStr.width_aware_slice`: what this chunk appends to `parts` (`cw` is `chunk.width`). -/
+def wasChunkPart (u : UEnv) (start stop counter : Int) (c : Chunk) (cw : Int) : Except PyErr (List Chunk) :=
+  if start < counter + cw ∧ stop > counter then
+    let st := max 0 (start - counter)
+    let en := min (stop - counter) cw
+    if en - st = cw then pure [c]
+    else do
+      let sPart ← widthAwareSliceStr u c.s (max 0 (start - counter)) (stop - counter)
+      pure [(⟨sPart, c.atts⟩ : Chunk)]
+  else pure []
+
 /-- The `for chunk in self.chunks` loop of `FmtStr.width_aware_slice`; `counter` is the running variable. -/
 def wasChunkLoop (u : UEnv) (start stop : Int) : Int → List Chunk → Except PyErr (List Chunk)
   | _, [] => .ok []
   | counter, c :: rest => do
     let cw ← chunkWidth u c
-    let part ←
-      if start < counter + cw ∧ stop > counter then
-        let st := max 0 (start - counter)
-        let en := min (stop - counter) cw
-        if en - st = cw then pure [c]
-        else do
-          let sPart ← widthAwareSliceStr u c.s (max 0 (start - counter)) (stop - counter)
-          pure [(⟨sPart, c.atts⟩ : Chunk)]
-      else pure []
+    let part ← wasChunkPart u start stop counter c cw
     let counter' := counter + cw
     if stop < counter' then pure part            -- break
     else do
